@@ -15,9 +15,10 @@ import (
 //     little language Model/C16_Sort.v interprets (check the operand, make the result, copy one side, return the
 //     result; an `if len(x) == 0 { return y }` early return is translated too - the proof that the result is a new
 //     dict then no longer goes through);
-//   - builtins.go sorted(): which operator each of the two sort.Slice comparison closures hands to s.operator
-//     as a function of `reverse`, that the list is cloned first, and whether the result is post-processed
-//     (slices.Reverse) before it is returned.
+//   - builtins.go sorted(): which sort function is called (sort.SliceStable since /repo 62283f2; sort.Slice is still
+//     recognised and translated, the proofs then fail: it is only stable up to 12 elements), which operator each of the
+//     two comparison closures hands to s.operator as a function of `reverse`, that the list is cloned first, and whether
+//     the result is post-processed (slices.Reverse) before it is returned.
 //
 // Anything else fails closed.
 func init() {
@@ -182,10 +183,18 @@ func init() {
 			failShape("sorted(): the two sort.Slice branches have an unrecognised shape")
 		}
 		const hole = "OPERATOR"
-		// the operator argument of the single s.operator call inside a statement, replaced by a hole
+		// the operator argument of the single s.operator call inside a statement, replaced by a hole; the sort function
+		// (sort.Slice / sort.SliceStable) of the single sort call, replaced by SORTFN
+		sortFns := []string{}
 		operatorOf := func(st ast.Stmt) string {
 			found := []string{}
 			ast.Inspect(st, func(n ast.Node) bool {
+				if c, ok := n.(*ast.CallExpr); ok {
+					if fn := types.ExprString(c.Fun); fn == "sort.Slice" || fn == "sort.SliceStable" {
+						sortFns = append(sortFns, fn)
+						c.Fun = ast.NewIdent("SORTFN")
+					}
+				}
 				if c, ok := n.(*ast.CallExpr); ok && types.ExprString(c.Fun) == "s.operator" && len(c.Args) == 3 {
 					found = append(found, types.ExprString(c.Args[0]))
 					c.Args[0] = ast.NewIdent(hole)
@@ -200,13 +209,16 @@ func init() {
 		opNoKey := operatorOf(ifKey.Body.List[0])
 		opKey := operatorOf(els.List[1])
 		matchShape("sorted() (sort without key)", stmtText(fsB, ifKey.Body.List[0]),
-			`{ sort.Slice(l, func(i, j int) bool { return s.operator(OPERATOR, l[i], l[j]).IsTruthy() }) }`)
+			`{ SORTFN(l, func(i, j int) bool { return s.operator(OPERATOR, l[i], l[j]).IsTruthy() }) }`)
 		matchShape("sorted() (sort with key)", stmtText(fsB, els.List...),
 			`{ s.Assert(isFunc, "Argument key must be callable, not %s", args[1].Type())
-			   sort.Slice(l, func(i, j int) bool {
+			   SORTFN(l, func(i, j int) bool {
 			     iKey := key.Call(s, &Call{ Arguments: []CallArgument{{ Value: Expression{optimised: &optimisedExpression{Constant: l[i]}}, }}, })
 			     jKey := key.Call(s, &Call{ Arguments: []CallArgument{{ Value: Expression{optimised: &optimisedExpression{Constant: l[j]}}, }}, })
 			     return s.operator(OPERATOR, iKey, jKey).IsTruthy() }) }`)
+		if len(sortFns) != 2 {
+			failShape("sorted(): expected exactly one sort.Slice / sort.SliceStable call per branch, found %v", sortFns)
+		}
 		opFun := func(x string) string {
 			if x == "order" {
 				if orderDefault == "" {
@@ -245,6 +257,9 @@ func init() {
 			"(* sorted() (builtins.go): the operator each comparison closure passes to s.operator, as a function of `reverse` *)\n" +
 			"Definition sorted_op_nokey : bool -> string := " + opFun(opNoKey) + ".\n" +
 			"Definition sorted_op_key : bool -> string := " + opFun(opKey) + ".\n" +
+			"(* the sort function each branch calls *)\n" +
+			"Definition sorted_fn_nokey : string := " + coqString(sortFns[0]) + "%string.\n" +
+			"Definition sorted_fn_key : string := " + coqString(sortFns[1]) + "%string.\n" +
 			"(* `if reverse { slices.Reverse(l) }` between the sort and the return *)\n" +
 			"Definition sorted_post_reverse : bool := " + postReverse + ".\n" +
 			"(* l = slices.Clone(l) before the sort: the caller's list is not written *)\n" +
